@@ -131,3 +131,56 @@ pub fn lockstep_opts(
     }
     Ok(res)
 }
+
+/// which property answers for a mismatch at `label`
+pub fn owner_of(label: &str) -> String {
+    match label {
+        "<list>" | "<literal>" | "<empty>" => "C06".to_string(),
+        "<name>" => "C07".to_string(),
+        n => crate::footprint::get(n).map(|f| f.owner.clone()).unwrap_or_default(),
+    }
+}
+
+
+/// Steps whose value is not compared when whole programs run over the full registry:
+// K2 (known finding of C04): the value of the two inverted conversions is not compared here
+// C08's instructions: `=` / DISCREPANCY compare printed forms by (pinned) design, which is
+// not injective on floats and vectors; whether NaN matches NaN structurally is unspecified
+pub fn context_skip(n: &str, before: &StateSpec) -> bool {
+    if n == "BOOLEAN.FROMFLOAT" || n == "BOOLEAN.FROMINTEGER" {
+        return true;
+    }
+    if owner_of(n) == "C08" {
+        // the instruction itself is still on EXEC in `before`
+        let tops: Vec<&ItemSpec> = before.code.iter().take(3).chain(before.exec.iter().take(4)).collect();
+        let has = |f: &dyn Fn(&ItemSpec) -> bool| tops.iter().any(|t| t.preorder().iter().any(|x| f(x)));
+        let printed = matches!(n, "CODE.=" | "EXEC.=" | "CODE.DISCREPANCY");
+        if printed {
+            // compared only when printing is injective on the sub-items involved: no two
+            // structurally different sub-items with the same printed form (vectors lose
+            // their type, floats their digits, names may spell a literal or be empty)
+            let subs: Vec<&ItemSpec> = tops.iter().flat_map(|t| t.preorder()).collect();
+            if subs.len() > 80 {
+                return true;
+            }
+            let texts: Vec<String> = subs.iter().map(|x| crate::refmodel::print_item(x)).collect();
+            for i in 0..subs.len() {
+                if texts[i].trim().is_empty() || matches!(subs[i], ItemSpec::Name(s) if s.chars().any(|c| c.is_whitespace() || c == '(' || c == ')')) {
+                    return true;
+                }
+                for j in (i + 1)..subs.len() {
+                    if texts[i] == texts[j] && subs[i] != subs[j] {
+                        return true;
+                    }
+                }
+            }
+            return false;
+        }
+        return has(&|x| match x {
+            ItemSpec::Float(v) => v.is_nan(),
+            ItemSpec::FVec(v) => v.iter().any(|e| e.is_nan()),
+            _ => false,
+        });
+    }
+    false
+}
